@@ -175,6 +175,8 @@ pub(crate) struct IceTransportInner {
     /// Stored atomically so the per-packet receive path records the timestamp
     /// without taking a mutex.
     last_received_nanos: AtomicU64,
+    /// when the transport last entered Checking (nanoseconds since `created_at`)
+    checking_since_nanos: AtomicU64,
     candidate_tx: broadcast::Sender<IceCandidate>,
     cmd_tx: mpsc::UnboundedSender<IceCommand>,
     checking_pairs: Mutex<std::collections::HashSet<(SocketAddr, SocketAddr)>>,
@@ -612,6 +614,19 @@ impl IceTransportRunner {
     /// removes the transaction from `pending_transactions`.
     async fn run_keepalive_tick(inner: &Arc<IceTransportInner>) -> Option<BoxFuture<'static, ()>> {
         let state = *inner.state.borrow();
+        if state == IceTransportState::Checking
+            && inner.config.transport_mode == crate::TransportMode::WebRtc
+        {
+            // No connectivity check has succeeded: give up after the
+            // connection timeout instead of staying in Checking forever.
+            let since = inner.checking_since_nanos.load(Ordering::Relaxed);
+            let now_nanos = inner.created_at.elapsed().as_nanos() as u64;
+            if Duration::from_nanos(now_nanos.saturating_sub(since))
+                > inner.config.ice_connection_timeout
+            {
+                let _ = inner.state.send(IceTransportState::Failed);
+            }
+        }
         if state == IceTransportState::Connected || state == IceTransportState::Disconnected {
             if inner.config.transport_mode == crate::TransportMode::WebRtc {
                 let last_nanos = inner.last_received_nanos.load(Ordering::Relaxed);
@@ -962,6 +977,7 @@ impl IceTransport {
             _selected_pair_rx_keeper: selected_pair_rx,
             created_at: Instant::now(),
             last_received_nanos: AtomicU64::new(0),
+            checking_since_nanos: AtomicU64::new(0),
             candidate_tx: candidate_tx.clone(),
             cmd_tx,
             checking_pairs: Mutex::new(std::collections::HashSet::new()),
